@@ -4,6 +4,12 @@
   `yaml.Unmarshal` produced the record (the YAML codec itself is a parameter of the theorems).
   Nil dereferences and `netip.Addr.As4` on a non-IPv4 address are explicit `Outcome.panic`s;
   the guards added by the `fix:` commits precede them exactly as in the code.
+
+  Second half (`Hash`, `seal`, `openFile`, `loadFile`, `saveFile`): the byte level around the codec —
+  the integrity line `# sha256: <hex>` that `saveConfig` writes first (`sealLeaseFile`) and that
+  `loadByteArray` verifies (`openLeaseFile`) before `yaml.Unmarshal`.  The hash function and the YAML
+  codec are parameters (`Hash` is a structure: a function with its output length; nothing is assumed
+  about collisions here — the theorems state what they need per pair of files).
 -/
 import PacketVerif.Model.Dhcp4Srv
 namespace PV.Model.Dhcp4File
@@ -212,5 +218,77 @@ def leaseRecOf (e : Cid × Lease) : LeaseRec :=
 def save (b : Built) : FileRec :=
   { net1 := some (subRecOf b.net1), net2 := some (subRecOf b.net2),
     leases := some ((b.table.filter (fun e => e.2.state == .allocated)).map leaseRecOf) }
+
+/-! ### the integrity line (byte level) -/
+
+/-- the hash function (`sha256.Sum256` in the code): any function with 32-byte results -/
+structure Hash where
+  H : Bytes → Bytes
+  len : ∀ b, (H b).length = 32
+
+/-- `"# sha256: "` -/
+def sealPrefix : Bytes := [35, 32, 115, 104, 97, 50, 53, 54, 58, 32]
+
+/-- lower-case hex digit of a nibble (`hex.EncodeToString`) -/
+def hexNib (n : Nat) : UInt8 := if n < 10 then UInt8.ofNat (48 + n) else UInt8.ofNat (87 + n)
+
+def hexOf : Bytes → Bytes
+  | [] => []
+  | b :: rest => hexNib (b.toNat / 16) :: hexNib (b.toNat % 16) :: hexOf rest
+
+/-- value of a hex digit, either case (`hex.DecodeString` accepts both) -/
+def hexVal? (c : UInt8) : Option Nat :=
+  let n := c.toNat
+  if 48 ≤ n ∧ n ≤ 57 then some (n - 48)
+  else if 97 ≤ n ∧ n ≤ 102 then some (n - 87)
+  else if 65 ≤ n ∧ n ≤ 70 then some (n - 55)
+  else none
+
+/-- `hex.DecodeString` -/
+def unhex : Bytes → Option Bytes
+  | [] => some []
+  | [_] => none
+  | a :: b :: rest =>
+    match hexVal? a, hexVal? b, unhex rest with
+    | some x, some y, some r => some (UInt8.ofNat (16 * x + y) :: r)
+    | _, _, _ => none
+
+/-- the first line `saveConfig` writes for a YAML body -/
+def sealLine (h : Hash) (body : Bytes) : Bytes := sealPrefix ++ hexOf (h.H body) ++ [10]
+
+/-- `sealLeaseFile` -/
+def sealFile (h : Hash) (body : Bytes) : Bytes := sealLine h body ++ body
+
+/-- what `openLeaseFile` makes of a file -/
+inductive Opened where
+  | legacy (yaml : Bytes)    -- no well-formed integrity line: the whole file is loaded as before
+  | verified (body : Bytes)    -- integrity line verified: the rest is loaded
+  | damaged                  -- integrity line present, hash differs: error
+  deriving DecidableEq, Repr
+
+/-- `openLeaseFile`: a well-formed first line is the 10-byte keyword, 64 hex digits, a line break at offset 74 -/
+def openFile (h : Hash) (f : Bytes) : Opened :=
+  if f.take 10 = sealPrefix ∧ (f.drop 74).head? = some 10 then
+    match unhex ((f.drop 10).take 64) with
+    | some want => if h.H (f.drop 75) = want then .verified (f.drop 75) else .damaged
+    | none => .legacy f
+  else .legacy f
+
+/-- `Config.New` over the bytes of the lease file (`none`: no file); `dec` = `yaml.Unmarshal` (`none`: error) -/
+def loadFile (h : Hash) (dec : Bytes → Option FileRec) (home nf : Expected) (captured : MAC → Bool)
+    (f : Option Bytes) : Outcome Built :=
+  match f with
+  | none => construct home nf captured none
+  | some f =>
+    match openFile h f with
+    | .legacy y => construct home nf captured (dec y)
+    | .verified b => construct home nf captured (dec b)
+    | .damaged => construct home nf captured none
+
+/-- the bytes `saveConfig` writes; `enc` = `yaml.Marshal` -/
+def saveFile (h : Hash) (enc : FileRec → Bytes) (b : Built) : Bytes := sealFile h (enc (save b))
+
+/-- the record an empty YAML document (comments only) decodes to -/
+def emptyRec : FileRec := { net1 := none, net2 := none, leases := none }
 
 end PV.Model.Dhcp4File
